@@ -131,8 +131,11 @@ def parse_output(out, names):
             r["descs"].append({"desc": fm.group(1).strip(), "file": fm.group(2), "line": fm.group(3), "fn": fm.group(4)})
         if re.search(r"CBMC timed out|timed out after|[Tt]imeout", part) and r["status"] in ("UNKNOWN", "FAILED") and not r["descs"]:
             r["status"] = "TIMEOUT"
-        if re.search(r"out of memory|std::bad_alloc|SIGKILL|Killed", part) and r["status"] == "UNKNOWN":
+        # "VERIFICATION:- FAILED" without a check summary means CBMC itself died (memory, crash): undecided, never an alarm
+        if re.search(r"out of memory|std::bad_alloc|SIGKILL|Killed|CBMC failed|CBMC crashed", part) and (r["status"] == "UNKNOWN" or r["checks"] == 0):
             r["status"] = "OOM"
+        if r["status"] == "FAILED" and r["checks"] == 0 and not r["descs"]:
+            r["status"] = "UNKNOWN"
         res[name] = r
     return res
 
